@@ -56,6 +56,27 @@ WITNESSES = [
      "note": "after a test that exhausts the tick budget, later tests must still run sandboxed"},
 ]
 
+_ORACLE = "('the playground run crashed (status %s): %s' % (rc, err[-160:])) if (isinstance(rc, int) and rc != 0) or 'overflowed' in err else ('' if ('\"value\"' in out and '\"error\"' in out) else 'no JSON result: ' + out[-160:])"
+_NEST = {"list": ("[]", "[x]"), "tuple": ("(1, 2)", "(x, 1)"), "option": ("None", "Some(x)"), "dict": ("Dict[]", "Dict[\"k\" => x]")}
+
+
+def _nest_prog(kind, n, last):
+    a, b = _NEST[kind]
+    return "let x = %s\nlet i = 0\nwhile i < %d { x = %s  i += 1 }\n%s\n" % (a, n, b, last)
+
+
+BOUNDED = [{"name": "moderately_nested_values:%s" % k, "kind": "playground", "props": ["C25"], "n_inputs": 1, "timeout": 120,
+            "input": _nest_prog(k, 300, "println(string_repr(x == x))\nstring_repr(x).len()"), "expect": {"py": _ORACLE},
+            "bound": "one playground program: a %s nested 300 deep, compared with itself, shown with string_repr: the run ends with a JSON result" % k} for k in sorted(_NEST)]
+BOUNDED += [{"name": "tick_budget:%s" % k, "kind": "playground", "props": ["C25"], "n_inputs": 1, "timeout": 120, "input": t, "expect": {"py": _ORACLE + " or ('' if 'limit' in out else 'no limit error: ' + out[-160:])"},
+             "bound": "one playground program (%s): the run ends with a resource-limit error" % k}
+            for k, t in (("infinite_while", "while True { }\n"), ("unbounded_recursion", "fun f(n: Int): Int { f(n + 1) + 1 }\nf(0)\n"),
+                         ("mutual_recursion_in_closures", "fun a(n: Int): Int { let g = fun(m: Int): Int { b(m) }  g(n + 1) }\nfun b(n: Int): Int { a(n) + 1 }\na(0)\n"),
+                         ("loop_inside_a_test_then_toplevel_loop", "test spin { while True { } }\nlet n = 0\nwhile True { n += 1 }\n"))]
+for _dn, _dk, _dd, _dl in (("nested_list_6000", "list", 6000, "1"), ("nested_option_6000", "option", 6000, "1"), ("nested_list_3000_displayed", "list", 3000, "x")):
+    BOUNDED.append({"name": "deep_value:" + _dn, "kind": "playground", "props": ["C25"], "n_inputs": 1, "timeout": 120, "input": _nest_prog(_dk, _dd, _dl), "expect": {"py": _ORACLE},
+                    "bound": "one playground program: a %s nested %d deep%s" % (_dk, _dd, ", displayed as the result" if _dl == "x" else "")})
+
 
 def build(tier):
     u = UnitFile("sandboxcfg")
